@@ -701,8 +701,9 @@ func (cx *evalCtx) index(base, idx TV) (TV, error) {
 	case *types.Array:
 		return TV{app("select", base.S, idx.S), s.sortOf(t.Elem()), t.Elem()}, nil
 	case *types.Map:
+		// Go semantics: a missing key (or a nil map) reads as the zero value
 		mi := r.mapHeaps(cx.st, t)
-		return TV{app("select", app("select", mi.m, base.S), idx.S), mi.vsort, t.Elem()}, nil
+		return TV{ite(and(not(eq(base.S, "0")), app("select", app("select", mi.dom, base.S), idx.S)), app("select", app("select", mi.m, base.S), idx.S), r.zero(t.Elem()).S), mi.vsort, t.Elem()}, nil
 	case *types.Pointer:
 		if at, ok := t.Elem().Underlying().(*types.Array); ok {
 			_, h := r.elemHeap(cx.st, at.Elem())
@@ -866,7 +867,7 @@ func (cx *evalCtx) call(x *ast.CallExpr) (TV, error) {
 				switch t := a.T.Underlying().(type) {
 				case *types.Map:
 					mi := r.mapHeaps(cx.st, t)
-					return TV{app("select", mi.ln, a.S), SInt, it}, nil
+					return TV{ite(eq(a.S, "0"), "0", app("select", mi.ln, a.S)), SInt, it}, nil
 				case *types.Array:
 					return TV{num(t.Len()), SInt, it}, nil
 				case *types.Basic:
@@ -911,7 +912,40 @@ func (cx *evalCtx) call(x *ast.CallExpr) (TV, error) {
 				return TV{}, fmt.Errorf("inDom on non-map")
 			}
 			mi := r.mapHeaps(cx.st, mt)
-			return TV{app("select", app("select", mi.dom, as[0].S), as[1].S), SBool, types.Typ[types.Bool]}, nil
+			return TV{and(not(eq(as[0].S, "0")), app("select", app("select", mi.dom, as[0].S), as[1].S)), SBool, types.Typ[types.Bool]}, nil
+		case "seen":
+			// seen(k): key k was already produced by the map iteration in progress (ghost visited set)
+			as, err := cx.args(x.Args)
+			if err != nil {
+				return TV{}, err
+			}
+			var it TV
+			n := 0
+			for name, v := range cx.st.vars {
+				if strings.HasPrefix(name, "iter#") {
+					if tv, ok := v.(TV); ok {
+						it = tv
+						n++
+					}
+				}
+			}
+			if n != 1 {
+				return TV{}, fmt.Errorf("seen(): %d map iterations in scope (need exactly one)", n)
+			}
+			rg, ok := it.T.(*types.Map)
+			_ = rg
+			_ = ok
+			name := ""
+			for hn := range r.eng.heapSorts {
+				if strings.HasPrefix(hn, "IT_") && strings.Contains(r.eng.heapSorts[hn], "(Array "+as[0].Sort+" Bool)") {
+					name = hn
+				}
+			}
+			if name == "" {
+				return TV{}, fmt.Errorf("seen(): no iterator heap for key sort %s", as[0].Sort)
+			}
+			h := r.heapGet(cx.st, name)
+			return TV{app("select", app("select", h, it.S), as[0].S), SBool, types.Typ[types.Bool]}, nil
 		case "typeIs":
 			// typeIs(x, T): dynamic type of interface value
 			v, err := cx.goExpr(x.Args[0])
